@@ -58,11 +58,8 @@ Definition op_se_fast : opfun := fun zs qs =>
       let '(A, r) := seg (N * nv) qs in let '(b, r) := seg N r in let '(q, r) := seg N r in let '(v, r) := seg nv r in
       let E : option qmat := if (he =? 0)%Z then None else Some (matl N N r) in
       let A := matl N nv A in
-      (* freeze p through an affine model with the frozen vector as offset *)
-      let p := vfreeze Q0 N (pv nv A (vecl b) (vecl v)) in
-      let Z : qmat := fun _ _ => Q0 in
-      Ok (fast_value N 0 E Z p (vecl q) (fun _ => Q0)
-          :: lvec nv (fun al => fast_grad N 0 E (fun i a => A i al) p (vecl q) (fun _ => Q0) O))
+      let d := vfreeze Q0 N (vsub (pv nv A (vecl b) (vecl v)) (vecl q)) in
+      Ok (fast_value_at N E d :: lvec nv (fast_grad_at N E A d))
   | _ => Err (-1) end.
 
 (* ---- block-diagonal extension: zs = [ns; m]; qs = W -> E (N*N) *)
@@ -118,7 +115,10 @@ Fixpoint run_steps (kind : Z) (ns m : nat) (k : Z) (steps : list Z) (qs : list Q
       let '(cmp, r) := if (hk =? 0)%Z then ([], r) else seg sz r in
       let custom : @wts Qc_OF := if (hc =? 0)%Z then None else Some (wtsl ns m c) in
       let computed := if (hk =? 0)%Z then None else Some (wtsl ns m cmp) in
-      let nxt := if (kind =? 0)%Z then
+      let nxt := if (md =? 5)%Z then    (* direct set_weight_matrices(custom) on the configured object *)
+                   COk (if (kind =? 2)%Z then set_direct_fast_fixed m custom st
+                        else if (kind =? 1)%Z then set_direct_fast custom st else {| f_w := custom; f_ext := None |})
+                 else if (kind =? 0)%Z then
                    match config_generic (mode_of md) custom computed (f_w st) with
                    | COk w => COk {| f_w := w; f_ext := None |} | CErr => CErr end
                  else if (kind =? 1)%Z then config_fast m (mode_of md) custom computed st
@@ -135,6 +135,52 @@ Fixpoint run_steps (kind : Z) (ns m : nat) (k : Z) (steps : list Z) (qs : list Q
 Definition op_config : opfun := fun zs qs =>
   match zs with
   | kind :: ns :: m :: steps => run_steps kind (nat_of ns) (nat_of m) 1%Z steps qs fresh
+  | _ => Err (-1) end.
+
+(* the same starting from a given object state: zs = kind :: ns :: m :: has_w0 :: has_e0 :: steps;
+   qs = [W0 (ns*m*m)] ++ [E0 (N*N)] ++ step data *)
+Definition op_config_from : opfun := fun zs qs =>
+  match zs with
+  | kind :: ns :: m :: hw0 :: he0 :: steps =>
+      let ns := nat_of ns in let m := nat_of m in let N := (ns * m)%nat in
+      let '(w0, r) := if (hw0 =? 0)%Z then ([], qs) else seg (ns * m * m) qs in
+      let '(e0, r) := if (he0 =? 0)%Z then ([], r) else seg (N * N) r in
+      let st0 : @fstate Qc_OF := {| f_w := if (hw0 =? 0)%Z then None else Some (wtsl ns m w0);
+                                    f_ext := if (he0 =? 0)%Z then None else Some (matl N N e0) |} in
+      run_steps kind ns m 1%Z steps r st0
+  | _ => Err (-1) end.
+
+(* fast relative-entropy object: zs = ns :: m :: steps, every step = [op; has_w] (op 0: constructor weights,
+   1: set_from_standard_qtomography_option_data with option weights, 2: set_weights); qs = per step [w(ns)].
+   -> has_w :: [w] ++ sel :: [ew(N)]   with sel 0: value() uses no weights, 1: uses ew, 2: value() raises AttributeError *)
+Fixpoint run_re_steps (ns m : nat) (steps : list Z) (qs : list Qc) (st : @rstate Qc_OF) : res :=
+  match steps with
+  | op :: hw :: rest =>
+      let '(w, r) := if (hw =? 0)%Z then ([], qs) else seg ns qs in
+      let wo : option qvec := if (hw =? 0)%Z then None else Some (vec_of_list 0%Qc w) in
+      let st' := if (op =? 0)%Z then {| r_w := wo; r_ew := None |}
+                 else if (op =? 1)%Z then config_re_fast m wo st else set_weights_re_fast wo st in
+      run_re_steps ns m rest r st'
+  | _ =>
+      let N := (ns * m)%nat in
+      Ok ((match r_w st with Some w => qz 1 :: list_of_vec ns w | None => [qz 0] end)
+          ++ (match re_fast_sel st with COk None => [qz 0] | COk (Some e) => qz 1 :: list_of_vec N e | CErr => [qz 2] end))
+  end.
+Definition op_config_re : opfun := fun zs qs =>
+  match zs with
+  | ns :: m :: steps => run_re_steps (nat_of ns) (nat_of m) steps qs {| r_w := None; r_ew := None |}
+  | _ => Err (-1) end.
+
+(* from a given state: zs = ns :: m :: has_w0 :: has_ew0 :: steps; qs = [w0(ns)] ++ [ew0(N)] ++ step data *)
+Definition op_config_re_from : opfun := fun zs qs =>
+  match zs with
+  | ns :: m :: hw0 :: he0 :: steps =>
+      let ns := nat_of ns in let m := nat_of m in let N := (ns * m)%nat in
+      let '(w0, r) := if (hw0 =? 0)%Z then ([], qs) else seg ns qs in
+      let '(e0, r) := if (he0 =? 0)%Z then ([], r) else seg N r in
+      let w0o : option qvec := if (hw0 =? 0)%Z then None else Some (vecl w0) in
+      let e0o : option qvec := if (he0 =? 0)%Z then None else Some (vecl e0) in
+      run_re_steps ns m steps r {| r_w := w0o; r_ew := e0o |}
   | _ => Err (-1) end.
 
 (* ---- relative entropy.  The logarithm is not computed: the reply carries, per flat index, the WEIGHTED coefficient
@@ -176,10 +222,9 @@ Definition op_re_fast : opfun := fun zs qs =>
       let A := matl N nv A in let q := vecl q in
       let ew := wopt he r in
       let p := vfreeze Q0 N (pv nv A (vecl b) (vecl v)) in
-      let Z : qmat := fun _ _ => Q0 in
       Ok (lvec N (fun i => esc Qc_OF ew i (qtrunc Qc_OF epsq (q i)))
           ++ lvec N (fun i => re_arg Qc_OF epsq epsp (q i) (p i))
-          ++ lvec nv (fun al => re_fast_grad Qc_OF N 0 ew epsq epsp (fun i _ => A i al) p q (fun _ => Q0) O))
+          ++ lvec nv (re_fast_grad_at Qc_OF N ew epsq epsp A p q))
   | _, _ => Err (-1) end.
 (* zs = [m]; qs = w(ns)  -> extend weights of length ns*m   (zs = [ns; m]) *)
 Definition op_ew_of : opfun := fun zs qs =>
@@ -205,6 +250,7 @@ Definition C12_ops : optable :=
   [ ("c12.se_at"%string, op_se_at); ("c12.se"%string, op_se); ("c12.se_fast"%string, op_se_fast);
     ("c12.ext_of"%string, op_ext_of); ("c12.replace_prob_dist"%string, op_replace_prob_dist);
     ("c12.cov"%string, op_cov); ("c12.extracted"%string, op_extracted); ("c12.inv_weight"%string, op_inv_weight);
-    ("c12.config"%string, op_config); ("c12.re_at"%string, op_re_at); ("c12.re"%string, op_re);
+    ("c12.config"%string, op_config); ("c12.config_re"%string, op_config_re);
+    ("c12.config_from"%string, op_config_from); ("c12.config_re_from"%string, op_config_re_from); ("c12.re_at"%string, op_re_at); ("c12.re"%string, op_re);
     ("c12.re_fast"%string, op_re_fast); ("c12.ew_of"%string, op_ew_of); ("c12.round_varz"%string, op_round_varz);
     ("c12.sq"%string, op_sq) ].
